@@ -15,8 +15,7 @@ attribute [local simp] cBs cComma cBar cDot cPlus cStar cQm cLBr cRBr cLPar cRPa
 
 /-! ## escape / unescape -/
 
-theorem isRegexToken_bs (f : Bool) : isRegexToken cBs f = true := by
-  simp [isRegexToken]
+theorem isRegexToken_bs (f : Bool) : isRegexToken cBs f = true := tok_bs f
 
 theorem unescapeAux_escapeAux (s : Bytes) : ∀ f : Bool, unescapeAux false (escapeAux f s) = s := by
   induction s with
@@ -46,14 +45,6 @@ theorem litsOf_render (s : Bytes) : ∀ f : Bool, (litsOf f s).render = escapeAu
 
 theorem litsOf_isAlt (f : Bool) (s : Bytes) : (litsOf f s).isAlt = false := by
   cases s <;> rfl
-
-theorem not_token_plain (c : UInt8) (f : Bool) (h0 : c ≠ 0) (h : isRegexToken c f = false) : plain c = true := by
-  simp only [isRegexToken] at h
-  split at h
-  · cases h
-  · rename_i h1
-    simp only [Bool.or_eq_true, beq_iff_eq, not_or] at h1
-    simp [plain, h0, h1]
 
 theorem litsOf_WF (s : Bytes) (h0 : ∀ c ∈ s, c ≠ 0) : ∀ f : Bool, (litsOf f s).WF = true := by
   induction s with
@@ -90,24 +81,18 @@ theorem litsOf_matches (s : Bytes) : ∀ (f : Bool) (t : Bytes), Pat.Matches (li
     · rintro rfl
       exact Pat.Matches.seq (s₁ := [c]) (.lit _ c) ((ih false r).2 rfl)
 
-theorem escape_firstOK (s : Bytes) (htick : s.head? ≠ some cTick) : firstOK (escape s) = true := by
+theorem escape_firstOK (s : Bytes) : firstOK (escape s) = true := by
   cases s with
   | nil => rfl
   | cons c r =>
     simp only [escape, escapeAux]
     by_cases ht : isRegexToken c true = true
     · simp [ht, firstOK]
-    · simp only [ht, Bool.false_eq_true, if_false, List.cons_append, List.nil_append, firstOK]
-      have hc : c ≠ cTick := by simpa using htick
-      simp only [isRegexToken, Bool.not_eq_true] at ht
-      split at ht
-      · cases ht
-      · split at ht
-        · cases ht
-        · rename_i h2
-          simp only [Bool.or_eq_true, beq_iff_eq, not_or] at h2
-          simp at hc
-          simp [h2, hc]
+    · simp only [Bool.not_eq_true] at ht
+      obtain ⟨h1, h2, h3⟩ := not_token_first c ht
+      simp only [ht, Bool.false_eq_true, if_false, List.cons_append, List.nil_append, firstOK]
+      simp at h1 h2 h3
+      simp [h1, h2, h3]
 
 /-! ## the single-valued test -/
 
@@ -128,8 +113,7 @@ theorem cwsScan_saw (s : Bytes) : ∀ f pe : Bool, (cwsScan f pe true s).1 = tru
       · rfl
     · exact ih _ _
 
-theorem isRegexToken_dash (f : Bool) : isRegexToken cDash f = false := by
-  simp [isRegexToken]
+theorem isRegexToken_dash (f : Bool) : isRegexToken cDash f = false := tok_dash f
 
 theorem cwsScan_false (s : Bytes) : ∀ f pe : Bool, (cwsScan f pe false s).1 = false → noUnescTok f pe s = true := by
   induction s with
@@ -186,9 +170,9 @@ theorem noUnescTok_render (p : Pat) : ∀ (f : Bool) (rest : Bytes), p.WF = true
       have hb : (c == (92 : UInt8)) = false := beq_eq_false_iff_ne.mpr (plain_not_bs c hp)
       simp only [Pat.render, Bool.false_eq_true, if_false, List.cons_append, List.nil_append, noUnescTok, Bool.and_eq_true] at h
       simpa [hb] using h.2
-  | any => intro f rest _ h; simp [Pat.render, noUnescTok, isRegexToken] at h
-  | star => intro f rest _ h; simp [Pat.render, noUnescTok, isRegexToken] at h
-  | cls neg items => intro f rest _ h; simp [Pat.render, noUnescTok, isRegexToken] at h
+  | any => intro f rest _ h; simp [Pat.render, noUnescTok] at h
+  | star => intro f rest _ h; simp [Pat.render, noUnescTok] at h
+  | cls neg items => intro f rest _ h; simp [Pat.render, noUnescTok] at h
   | seq a b iha ihb =>
     intro f rest hwf h
     simp only [Pat.WF, Bool.and_eq_true] at hwf
@@ -201,8 +185,8 @@ theorem noUnescTok_render (p : Pat) : ∀ (f : Bool) (rest : Bytes), p.WF = true
     simp only [Pat.WF, Bool.and_eq_true] at hwf
     simp only [Pat.render, List.append_assoc, List.cons_append] at h
     obtain ⟨_, f', h'⟩ := iha f _ hwf.1 h
-    cases bar <;> simp [noUnescTok, isRegexToken] at h'
-  | grp a iha => intro f rest _ h; simp [Pat.render, noUnescTok, isRegexToken] at h
+    cases bar <;> simp [noUnescTok] at h'
+  | grp a iha => intro f rest _ h; simp [Pat.render, noUnescTok] at h
 
 theorem litOnly_matches (p : Pat) (h : p.litOnly = true) : ∀ s : Bytes, Pat.Matches p s ↔ s = p.chars := by
   induction p with
@@ -273,10 +257,10 @@ theorem canMatchMultiple_false_litOnly (p : Pat) (hwf : p.WF = true) (h : canMat
   exact this.1
 
 theorem canMatchMultiple_tilde (r : Bytes) : canMatchMultiple (cTilde :: r) = true := by
-  simp [canMatchMultiple, canMatchMultipleAux, cwsScan, isRegexToken]
+  simp [canMatchMultiple, canMatchMultipleAux, cwsScan]
 
 theorem canMatchMultiple_lt (r : Bytes) : canMatchMultiple (cLt :: r) = true := by
-  simp [canMatchMultiple, canMatchMultipleAux, cwsScan, isRegexToken]
+  simp [canMatchMultiple, canMatchMultipleAux, cwsScan]
 
 /-! ## ranges -/
 
@@ -371,7 +355,7 @@ theorem matchRange_toId (neg : Bool) (rs : List RangeSpec) (hwf : (Top.ranges ne
         simp only [RangeSpec.has, Bool.and_eq_true, decide_eq_true_eq] at hh
         simp only [RangeSpec.toId, idRange, Option.getD_some] at hq' ⊢; omega
 
-theorem canMatchMultiple_escape (s : Bytes) (htick : s.head? ≠ some cTick) : canMatchMultiple (escape s) = false := by
+theorem canMatchMultiple_escape (s : Bytes) : canMatchMultiple (escape s) = false := by
   unfold canMatchMultiple canMatchMultipleAux
   cases s with
   | nil => rfl
@@ -382,14 +366,16 @@ theorem canMatchMultiple_escape (s : Bytes) (htick : s.head? ≠ some cTick) : c
     · rename_i x y heq
       split
       · rename_i hx
-        -- the first byte of the escaped text is a backtick only if `c` is one
+        -- the escaped text never starts with a backtick: a leading backtick is a token and gets its backslash
         exfalso
         simp only [escapeAux] at heq
         by_cases ht : isRegexToken c true = true
         · simp [ht] at heq; simp [← heq.1] at hx
-        · simp [ht] at heq
+        · simp only [Bool.not_eq_true] at ht
+          have h2 := (not_token_first c ht).2.1
+          simp [ht] at heq
           have : c = cTick := by simpa [heq.1] using hx
-          simp [this] at htick
+          exact h2 this
       · rw [hscan]
     · rw [hscan]
 
